@@ -186,6 +186,9 @@ def main(argv=None):
     # API-level stream (store opened through Datastore in every option combination) and buckets of >= 10001 events
     from . import c06_api
     c06_api.run(ck, sq, Event, quick, have_driver)
+    # histories in which the ENGINE raises (a COMMIT, a statement, a bulk statement part-way) and the caller carries on
+    from . import c06_fault
+    c06_fault.run(ck, sq, Event, quick)
     if have_driver:
         # state-level stream (Model/CrashStore.v, Props/C06State.v): full table dumps at every crash point
         from . import c06_state
@@ -212,7 +215,7 @@ def main(argv=None):
     ]
     ck.trusted += ["translate/k_commit.py (tie B: commit, conditional_commit, per-method scripts, peewee chunking)",
                    "SQLite 3.40 transaction atomicity and WAL durability (oracle, sampled)"]
-    return ck.finish(RULE + c06_api.RULE)
+    return ck.finish(RULE + c06_api.RULE + c06_fault.RULE)
 
 
 if __name__ == "__main__":
